@@ -56,7 +56,7 @@ def _cases(ctx, countries, per_combo):
                     yield case
                 else:
                     ctx.count("probe-failed")
-                    ctx.violation("main-setup-fails", "main() cannot even start for %s/%s" % (code, sc), {"code": code, "scenario": sc})
+                    ctx.violation("main-setup-fails", "main() fails before the month loop for %s/%s" % (code, sc), {"code": code, "scenario": sc})
 
 
 def _run(ctx, cases):
